@@ -90,3 +90,62 @@ def rule_truthy(prog, rep, R, module_filter=None):
     n = count_tests(prog, module_filter)
     rep.holds(R, "-", f"{R}:scanned", f"{n} branch tests scanned, {len(seen)} truthiness tests on shapes", nontrivial=False)
     rep.analysed["branch_tests_scanned"] = n
+
+
+# ------------------------------------------------------------------ numerical stability lint
+
+def _is_call(t, q):
+    return t[0] == "call" and t[1] == ("ext", q)
+
+
+def _arg(t):
+    kw = dict(t[3])
+    return kw.get("a") if "a" in kw else kw.get("x")
+
+
+def unstable_patterns(t):
+    """[(subterm, advice)] for exp/log compositions that cancel or overflow in floating point although they
+    are exact over the reals."""
+    from ..terms import C, walk
+    out = []
+    for s in walk(t):
+        if _is_call(s, "jax.numpy.log") or _is_call(s, "jax.numpy.log1p"):
+            a = _arg(s)
+            if a is None:
+                continue
+            is_log1p = s[1][1].endswith("log1p")
+            items = a[1] if a[0] == "add" else (a,)
+            exps = [x for x in items if _is_call(x, "jax.numpy.exp") or (
+                x[0] == "mul" and len(x[1]) == 2 and x[1][0] == C(-1) and _is_call(x[1][1], "jax.numpy.exp"))]
+            consts = [x for x in items if x[0] == "const"]
+            if exps and (consts or is_log1p) and len(items) <= 2:
+                neg = exps[0][0] == "mul"
+                if not is_log1p and consts and consts[0] == C(-1) and not neg:
+                    out.append((s, "log(exp(a) - 1) overflows for a > ~88 and cancels for small a: use log(expm1(a)) / "
+                                   "a + log(-expm1(-a))"))
+                elif (is_log1p and neg) or (not is_log1p and consts and consts[0] == C(1) and neg):
+                    out.append((s, "log(1 - exp(a)) / log1p(-exp(a)) cancels catastrophically as exp(a) -> 1 or -> 0 "
+                                   "relative to 1: use log(-expm1(a))"))
+                elif (is_log1p and not neg) or (not is_log1p and consts and consts[0] == C(1) and not neg):
+                    out.append((s, "log(1 + exp(a)) overflows: use softplus / logaddexp"))
+    return out
+
+
+def rule_stable_bijections(prog, rep, R):
+    from ..terms import show
+    from .bij import bijection_classes, is_stub, method_site, method_term
+    rep.rule(R, "no exp/log composition that is exact over the reals but cancels or overflows in floating point "
+                "(log(exp(a) - 1), log1p(-exp(a)), log(1 + exp(a))) in a bijection method: the reparameterised "
+                "constructor arguments and round trips must survive float32 at small / large magnitudes", minimum=50)
+    for c in bijection_classes(prog):
+        for m in ("transform", "transform_and_log_det", "inverse", "inverse_and_log_det"):
+            t = method_term(prog, c, m)
+            if is_stub(t):
+                continue
+            site = method_site(prog, c, m)
+            bad = unstable_patterns(t)
+            k = f"{c.qualname}.{m}:stable"
+            if bad:
+                rep.violated(R, site, k, f"{show(bad[0][0], 120)}: {bad[0][1]}")
+            else:
+                rep.holds(R, site, k, "no unstable exp/log composition", nontrivial=False)
